@@ -806,6 +806,106 @@ def task_driver_reuse(ctx):
     ctx.assume_note("two jobs of the same shapes (batch [OH, HH]) and different symbolic values; callees (hamiltonian, pair_nuclear_energy, elec_energy, dipole) are recorders returning job-tagged symbols")
 
 
+def replay_md_driver_reuse(model):
+    """real code: a Langevin driver that first ran water [8,1,1] and then HCN [7,6,1] (same shape, other masses), against a fresh
+    driver running HCN with the same seed: bitwise the same trajectory."""
+    import io, contextlib, os, tempfile, shutil
+    import torch
+    from seqm.seqm_functions.constants import Constants
+    from seqm.Molecule import Molecule
+    import seqm.MolecularDynamics as M
+
+    torch.set_default_dtype(torch.float64)
+    params = {"method": "AM1", "scf_eps": 1e-7, "scf_converger": [1], "sp2": [False, 1e-5], "elements": [0, 1, 6, 7, 8], "learned": [], "pair_outer_cutoff": 1e10, "eig": True}
+    geo = {"water": ([[8, 1, 1]], [[[0.0, 0, 0], [0.96, 0.05, 0], [-0.24, 0.93, 0]]]), "HCN": ([[7, 6, 1]], [[[0.0, 0, 0], [1.16, 0.02, 0], [2.22, 0.05, 0.01]]])}
+    d = tempfile.mkdtemp(prefix="pyvc_c15_")
+
+    def driver():
+        return M.Molecular_Dynamics_Langevin(damp=10.0, seqm_parameters=dict(params), timestep=0.5, Temp=300.0, output={"molid": [0], "prefix": os.path.join(d, "md"), "print every": 0, "checkpoint every": 0, "xyz": 0, "h5": {}})
+
+    def run(md, name):
+        mol = Molecule(Constants(), dict(params), torch.tensor(geo[name][1]), torch.tensor(geo[name][0]))
+        with contextlib.redirect_stdout(io.StringIO()):
+            md.run(mol, 3, seed=11)
+        return mol.coordinates.detach().clone(), mol.velocities.detach().clone()
+
+    try:
+        fresh = run(driver(), "HCN")
+        used = driver()
+        run(used, "water")
+        again = run(used, "HCN")
+        dev = max(float((fresh[0] - again[0]).abs().max()), float((fresh[1] - again[1]).abs().max()))
+        return {"reproduced": dev > 0.0, "max_abs_difference_fresh_vs_reused_driver": dev, "history": "water (3 steps), then HCN (3 steps), seed 11"}
+    finally:
+        shutil.rmtree(d, ignore_errors=True)
+
+
+def task_md_driver_reuse(ctx):
+    """O1 for the MD engines (two-run contract, symbolic): what initialize() leaves on a thermostatted driver for job B (thermostat
+    coefficients, degrees of freedom) is what a fresh driver computes for job B, whatever job A was -- same shapes, other masses."""
+    import seqm.MolecularDynamics as M
+    from contracts import C12_langevin as C12
+
+    MDM = "seqm.MolecularDynamics"
+    rep = []
+    rp = lambda mdl: (rep or rep.append(_quiet(replay_md_driver_reuse)) or rep)[0]
+    for cls, extra in (("Molecular_Dynamics_Langevin", {}), ("XL_BOMD", {"xl_bomd_params": {"k": 3}})):
+        ctx.under_contract(MDM + ":%s.initialize" % cls, stubs=["esdriver", "initialize_velocity"])
+
+        def make():
+            kw = dict(seqm_parameters={"method": "AM1"}, timestep=0.5, Temp=300.0, output={"h5": {}, "print every": 0, "checkpoint every": 0})
+            kw.update(extra)
+            md = getattr(M, cls)(damp=20.0, **kw)
+            md.esdriver.behaviour = C12._driver_behaviour
+            return md
+
+        def molecule(tag):
+            mol = C12._mol(2)
+            minv = [real("minv_%s%d" % (tag, i)) for i in range(2)]
+            for v in minv:
+                assume(v > 0)
+            mol.mass_inverse = st.tensor([[[x] for x in minv]])
+            mol.mass = st.tensor([[[1 / x] for x in minv]])
+            return mol
+
+        def thunk():
+            used, fresh = make(), make()
+            used.initialize(molecule("A"))
+            mb1, mb2 = molecule("B"), molecule("B")
+            used.initialize(mb1)
+            fresh.initialize(mb2)
+            return used, fresh
+
+        ex = ctx.explore(thunk, stubs=C12.STUBS, name="%s.initialize twice" % cls, max_paths=16)
+        n = 0
+        for p in ex.paths:
+            if p.raised is not None:
+                if isinstance(p.raised, Unmodelled):
+                    raise p.raised
+                ctx.fail("md_driver_reuse.%s.raises@p%d" % (cls, p.path_id), repr(p.raised) + p.notes.get("traceback", "")[-600:])
+                continue
+            n += 1
+            used, fresh = p.value
+            for attr in ("langevin_c1", "langevin_c2", "n_dof"):
+                a, b = getattr(used, attr, None), getattr(fresh, attr, None)
+                if a is None and b is None:
+                    continue
+                if (a is None) != (b is None):
+                    ctx.fail("md_driver_reuse.%s.%s@p%d" % (cls, attr, p.path_id), "set on one driver only", replay=rp(None))
+                    continue
+                av = a.a.reshape(-1) if isinstance(a, st.T) else np.array([S(a)], dtype=object)
+                bv = b.a.reshape(-1) if isinstance(b, st.T) else np.array([S(b)], dtype=object)
+                if av.shape != bv.shape:
+                    ctx.fail("md_driver_reuse.%s.%s@p%d" % (cls, attr, p.path_id), "shapes differ", replay=rp(None))
+                    continue
+                for k in range(av.shape[0]):
+                    ctx.prove_eq("md_driver_reuse.%s.%s[%d]-on-a-used-driver=on-a-fresh-driver@p%d" % (cls, attr, k, p.path_id), av[k], bv[k], pc=p.pc, replay=rp,
+                                 classify=lambda m_, r: "md-driver-carries-state-between-runs")
+        if n == 0:
+            ctx.error("md_driver_reuse.%s.paths" % cls, "no returning path")
+    ctx.assume_note("md_driver_reuse: one molecule of two atoms per job, symbolic inverse masses (different symbols for jobs A and B), concrete dt / damp / Temp; only what initialize() leaves on the driver is compared")
+
+
 _GLOBAL_FRAME_SCRIPT = r"""
 import json, os, sys, tempfile, contextlib, io
 import torch
@@ -919,5 +1019,5 @@ def task_global_state_frame(ctx):
                         "why_not_proved": "global interpreter state is outside the symbolic shim; the static list of setter call sites is in the notes"})
 
 
-TASKS_QUICK = ["global_state_frame", "autograd_functions", "caches", "mutable_defaults", "settings_dict", "driver_reuse"]
+TASKS_QUICK = ["global_state_frame", "autograd_functions", "caches", "mutable_defaults", "settings_dict", "driver_reuse", "md_driver_reuse"]
 TASKS_THOROUGH = TASKS_QUICK
